@@ -121,6 +121,16 @@ def storedCoords (f : Fmt) (dim : Nat) (ec : List Int) : List Int :=
   | .C => ec
   | .B => maskOf dim ec
 
+/-- the imposed shape handed to the children: U and C pass `shape=shape` on, Bitvector calls
+    `codec.encode(depth + 1, val, ranks, output, output_tensor)` without it -/
+def ishNext (f : Fmt) (ish : Option (List Nat)) : Option (List Nat) :=
+  match f with
+  | .B => none
+  | _ => ish.map List.tail
+
+/-- the default payload of a non-leaf rank: an empty fiber -/
+def emptyT (d : Nat) : Tree Int Int (d + 1) := (show List (Int × Tree Int Int d) from [])
+
 /-- `Codec.encode(depth, a, …)` for a fiber with `d` ranks below it.
     `fs` / `tsh` / `ish` are the descriptor, the tensor's own shape and the imposed shape
     from this rank downwards; `pidx` is `len(output_tensor[depth])` (what U returns as its
@@ -143,11 +153,10 @@ def encF : (d : Nat) → List Fmt → List Nat → Option (List Nat) → Nat →
     let g := fs.tail.headD .U
     let dim := dimOf tsh ish
     let me := cnt.headD (0, 0)
-    let els := elemsOf f dim (show Tree Int Int (d + 1) from ([] : List (Int × Tree Int Int d)))
-                 (isEmpty (κ := Int) (0 : Int) (d + 1)) (show Fib Int (Tree Int Int (d + 1)) from a)
+    let els := elemsOf f dim (emptyT d) (isEmpty (κ := Int) (0 : Int) (d + 1))
+                 (show Fib Int (Tree Int Int (d + 1)) from a)
     let n := els.length
-    -- Bitvector: `codec.encode(depth + 1, val, ranks, output, output_tensor)` — the imposed shape is not passed on
-    let ishK := match f with | .B => none | _ => ish.map List.tail
+    let ishK := ishNext f ish
     let K := encKids (d + 1) (encF d fs.tail tsh.tail ishK me.1) (els.map (·.2)) cnt.tail 0
     let occs := if g.explicit then K.cums else []
     let stored := storedCoords f dim (els.map (·.1))
@@ -178,7 +187,7 @@ def encode (d : Nat) (fs : List Fmt) (tsh : List Nat) (ish : Option (List Nat)) 
 def effShape : List Fmt → List Nat → Option (List Nat) → List Nat
   | [], _, _ => []
   | f :: fs, tsh, ish =>
-    dimOf tsh ish :: effShape fs tsh.tail (match f with | .B => none | _ => ish.map List.tail)
+    dimOf tsh ish :: effShape fs tsh.tail (ishNext f ish)
 
 /-! ### Decoding by the documented layout (specification side) -/
 
@@ -400,6 +409,13 @@ def inShape : (d : Nat) → List Nat → Tree Int Int d → Bool
   | 0, _, _ => true
   | d + 1, sh, f => (show List (Int × Tree Int Int d) from f).all
       (fun e => decide (0 ≤ e.1) && decide (e.1 < (sh.headD 0 : Nat)) && inShape d sh.tail e.2)
+
+/-- all coordinates lie inside the extent their rank is actually laid out with -/
+def inEff : (d : Nat) → List Fmt → List Nat → Option (List Nat) → Tree Int Int d → Bool
+  | 0, _, _, _, _ => true
+  | d + 1, fs, tsh, ish, f => (show List (Int × Tree Int Int d) from f).all
+      (fun e => decide (0 ≤ e.1) && decide (e.1 < (dimOf tsh ish : Nat)) &&
+        inEff d fs.tail tsh.tail (ishNext (fs.headD .U) ish) e.2)
 
 def shapeGe : List Nat → List Nat → Bool
   | [], [] => true
